@@ -30,6 +30,10 @@ CASES = [
     ("poll_skip_rem", "Mutants", "comp", C(NSys=2, NEnt=2, NVal=2, OpNames={"rm", "desp", "trig"}, MaxOps=2, Budget=2, MaxSteps=3, StepKinds={"ops", "poll"}), ["Inv_C08"]),
     ("ew_cleanup_inverted", "Mutants", "world", C(NSys=1, NW=1, NER=1, NEnt=2, NVal=2, OpNames={"eadd", "erem", "mut"}, MaxOps=2, Budget=3, MaxSteps=3), ["Inv_C16"]),
     ("ew_wrong_local", "Mutants", "world", C(NSys=1, NW=1, NER=1, NEnt=2, NVal=2, OpNames={"eadd", "mut"}, MaxOps=2, Budget=2, MaxSteps=3), ["Inv_C16"]),
+    ("abort_poll_first", "Mutants", "mix", C(NSys=2, NEnt=2, OpNames={"sysevsig", "despsys"}, MaxOps=2, Budget=3, MaxSteps=3), ["Inv_C08", "Inv_C11"]),
+    ("gc_flat", "Mutants", "hier", C(NSys=2, NEnt=3, Hier=3, OpNames={"sysevsig"}, MaxOps=1, Budget=2, MaxSteps=3, StepKinds={"ops", "clear"}), ["Inv_C08", "Inv_C18"]),
+    ("poll_stop_unwatched", "Mutants", "tabdesp", C(NSys=3, NEnt=2, OpNames={"revoke", "desp"}, MaxOps=3, BodyOps=0, Budget=3, MaxSteps=3, FinalStep="clear"), ["Inv_C08"]),
+    ("replay_skip_dead", "Mutants", "run", C(NSys=2, OpNames={"sysev", "despsys"}, MaxOps=2, Budget=3, MaxSteps=2), ["Inv_C18", "Inv_C02", "Inv_C05"]),
     ("swap_remove", "Defects", "run", C(NSys=1, OpNames={"sysev"}, MaxOps=3, Budget=4, MaxSteps=2), ["Inv_C12", "Inv_C03"]),
     ("nested_first", "Defects", "run", C(NSys=2, OpNames={"run", "sysev"}, MaxOps=3, Budget=5, MaxSteps=1), ["Inv_C12", "Inv_C03"]),
     ("insert_dead", "Defects", "comp", C(NSys=2, NEnt=2, NVal=1, OpNames={"ins", "desp"}, MaxOps=2, Budget=2, MaxSteps=2), ["Inv_C14", "Inv_C18", "Inv_C01"]),
@@ -47,7 +51,7 @@ def run(only=None):
     for name, kind, gname, consts, expect in CASES:
         if only and name not in only:
             continue
-        group = configs.GROUPS[gname]
+        group = configs.GROUPS.get(gname) or configs.ENUMS[gname]
         consts = dict(consts)
         consts[kind] = {name}
         cfg = os.path.join(wd, name + ".cfg")
@@ -67,5 +71,11 @@ def run(only=None):
         if not ok:
             rc = 1
     os.makedirs(os.path.join(ROOT, "selftest"), exist_ok=True)
-    json.dump(dict(when=time.strftime("%Y-%m-%d %H:%M:%S"), results=results), open(os.path.join(ROOT, "selftest", "model_mutants.json"), "w"), indent=1)
+    path = os.path.join(ROOT, "selftest", "model_mutants.json")
+    merged = {}
+    if only and os.path.exists(path):
+        merged = {r["mutant"]: r for r in json.load(open(path)).get("results", [])}
+    for r in results:
+        merged[r["mutant"]] = r
+    json.dump(dict(when=time.strftime("%Y-%m-%d %H:%M:%S"), results=list(merged.values())), open(path, "w"), indent=1)
     return rc
